@@ -507,7 +507,7 @@ def successor_protocol(ck: Check, rule: str) -> None:
         else:
             problems += _source_list_ok(fm, osv, at, node_param)
         lim = kws.get("solution_limit")
-        if lim is not None and "max_motifs_per_node" not in text(lim):
+        if lim is not None and "max_motifs_per_node" not in fm.key(lim, at):
             problems.append(f"solution_limit `{text(lim)}` is not the configured max_motifs_per_node")
         ck.ob(rule, fm, fm.f.stmt_of(c), not problems, "; ".join(problems) if problems else
               f"maximal trap spaces of the node ({'reduced net + join' if mode == 'joined' else 'global net + ensure_subspace'})")
